@@ -106,6 +106,46 @@ CHECKS = {
          '(R-DESTROY). Allocator balance over histories is not decided.',
          'clang 14 AST/CFG; objects stored into the tree are released by teardown / GC',
          'DESIGN.md section 5, C11'),
+ 'C10': ('cursor typestates (range reader with iscan_check_retry, validate-after-read, early-abort, '
+         'callback-before-leave, resume-state), validation typestate shared with scan',
+         'Decides on every CFG path of iscan_open / iscan_findfirst / iscan_findnext: same argument validation as scan '
+         'and INF normalisation (R-VAL); only validated data is yielded or descended into and values are validated '
+         'against removes (R-VAR, R-RV); boundary load order (R-ORD); no silent retry after a failed check under '
+         'early_abort (R-EA); callback before leaving a border, paired between findfirst and findnext (R-CB); resume '
+         'state written on every yielding exit (R-RES). That the produced sequence equals the interval is not decided.',
+         'clang 14 AST/CFG; iscan_check_retry OK means version and permutation unchanged',
+         'DESIGN.md section 5, C10'),
+ 'C14': ('CAS-protocol typestate, claim/token pairing, ordering rule, compile-time capacity witnesses',
+         'Decides the shape of the slot claim (CAS from false to true, R-CAS), that a token is handed out only for the '
+         'slot whose claim succeeded and WARN_MAX_SESSIONS only after the whole table was tried (R-TOK), publication '
+         'of the begin epoch before enter returns (R-PUB), the store order of leave (R-LVE) and the table capacity '
+         'for several configured capacities (R-CAP). Mutual exclusion over interleavings rests on CAS atomicity.',
+         'clang 14 AST/CFG and constant evaluator; atomicity of std::atomic<bool>::compare_exchange',
+         'DESIGN.md section 5, C14'),
+ 'C15': ('layout witnesses, expression-agreement rules over the size/alignment sites, who-writes-field rule, '
+         'single-store typestate',
+         'Decides that allocation, release, GC triple and GC releases use one (base, len+align, align) formula after the '
+         'minimum-alignment clamp (R-SZ), layout facts (R-LAY), immutability of published blocks (R-IMM), that an '
+         'overwrite is one release store of one word (R-ONE) and that OK reads are validated (R-VAR/R-RV). '
+         'Byte-for-byte equality is not decided.',
+         'clang 14 AST/CFG/record layout; allocator honours align_val_t',
+         'DESIGN.md section 5, C15'),
+ 'C17': ('record-layout facts and witnesses, field-effect summaries, CAS-loop typestate with per-path effect tables',
+         'Decides the bit-field layout of the version word (R-LAYV), that every accessor touches exactly its field '
+         '(R-BODY), that every shared update is a CAS loop on a fresh copy carrying exactly the protocol effect, incl. '
+         'the conditional counter bumps of unlock (R-CASL), lock-from-unlocked (R-MX), the stable-version guard '
+         '(R-STB) and raw stores only on unpublished nodes (R-RAWV). Mutual exclusion over interleavings rests on CAS '
+         'atomicity.',
+         'clang 14 AST/CFG/record layout; hardware CAS',
+         'DESIGN.md section 5, C17'),
+ 'C19': ('layout witnesses, single-publication path counting, constant propagation over finite abstract inputs for '
+         'shift amounts, call-site agreement',
+         'Decides single atomic publication per mutator path (R-PUB1), that no shift amount reaches 64 for any abstract '
+         '(rank, count) admitted by the preconditions (R-SHIFT, exhaustive over the finite abstraction), free-slot '
+         'discipline (R-SLOT) and the word layout (R-LAYP). The bit-precise correctness of the shift arithmetic is '
+         'not decided.',
+         'clang 14 AST/CFG; caller preconditions rank <= count <= 15 assumed',
+         'DESIGN.md section 5, C19'),
 }
 
 NOT_APPLICABLE = {
